@@ -55,6 +55,9 @@ func (w *Writer) Flush() {
 			w.err = err
 			return
 		}
+		// The pending bits are out: the writer is byte-aligned again
+		w.n = 0
+		w.v = 0
 	}
 }
 
